@@ -188,7 +188,9 @@ def s5(ctx, rep, clause="S5"):
         ok = any(a[0] == "eq" and a[3] is True and (a[1].endswith("SchedulerDecision.STOP") or a[2].endswith("SchedulerDecision.STOP"))
                  for a in at) and any(a[0] == "eq" and a[3] is False and "Status.completed" in (a[1], a[2]) for a in at)
         extra = [a for a in at if not (a[0] == "eq" and ("SchedulerDecision.STOP" in a[1] + a[2] or "Status.completed" in (a[1], a[2])))
-                 and not (a[0] == "in" and has_dn(a[2]))]
+                 and not (a[0] == "in" and has_dn(a[2]))
+                 and not (a[0] == "in" and a[3] is True and "SchedulerDecision.STOP" in a[2])        # implied by decision == STOP
+                 and not (a[0] == "eq" and a[3] is False and "SchedulerDecision." in a[1] + a[2])]  # decision != <another member>: implied as well
         rep.put(ok and not extra, clause, "guarded_by", "Tuner._update_running_trials: stop_trial | decision == STOP and status != completed (only)",
                 f, c, "", f"stop_trial is guarded by {sorted(map(str, at))}: a STOP decision for a running trial may not reach the backend")
     # status loop: completed / failed / externally stopped
